@@ -869,6 +869,32 @@ def x_instr_dump(co, opc, max_code=None, dup_lines=False):
             except Exception as e:
                 res["positions_pp_err"] = "%s: %s" % (type(e).__name__, e)
     try:
+        # metamorphic: the same code object 1000 lines further down reports every line 1000 higher
+        if hasattr(co, "replace") and isinstance(getattr(co, "co_firstlineno", None), int):
+            K = 1000
+            co2 = co.replace(co_firstlineno=co.co_firstlineno + K)
+
+            def sh(line):
+                return None if line is None else line + K
+            bad = []
+            if "linestarts" in res and [[a, b] for a, b in opc.findlinestarts(co2)] != [[a, sh(b)] for a, b in res["linestarts"]]:
+                bad.append("findlinestarts")
+            if "co_lines" in res and [list(t) for t in co2.co_lines()] != [[a, b, sh(c)] for a, b, c in res["co_lines"]]:
+                bad.append("co_lines")
+            if "positions" in res:
+                out = []
+                for t in co2.co_positions():
+                    t = list(t)
+                    if len(t) == 5:
+                        out.extend([t[1:]] * t[0])
+                    else:
+                        out.append(t)
+                if out != [[sh(p[0]), sh(p[1]), p[2], p[3]] for p in res["positions"]]:
+                    bad.append("co_positions")
+            res["shift_bad"] = bad
+    except Exception as e:
+        res["shift_bad"] = ["raised %s: %s" % (type(e).__name__, e)]
+    try:
         # the second, independent operand decoder inside xdis (used by the label finders)
         if opc.version_tuple >= (3, 10):
             unp = x.cross_dis.unpack_opargs_bytecode_310(code, opc)
@@ -1023,6 +1049,22 @@ def op_x_listing(req):
             f.write(unhx(req["data"]))
     x.disasm.disassemble_file(path, out, req["fmt"])
     return {"text": out.getvalue()}
+
+
+def op_x_stack_effect(req):
+    """C15: xstack_effect computed under this host for (opcode, operand) pairs of one bytecode version"""
+    x = xd()
+    opc = x.disasm.get_opcode(tuple(req["version"]), False)
+    out = []
+    for op in req["ops"]:
+        row = []
+        for a in req["args"]:
+            try:
+                row.append(x.cross_dis.xstack_effect(op, opc, a))
+            except Exception as e:
+                row.append("raised %s" % type(e).__name__)
+        out.append(row)
+    return {"rows": out}
 
 
 def op_x_sysinfo2magic(req):
